@@ -307,7 +307,12 @@ KERNEL_FAMILY = [('add', 'arith'), ('sub', 'arith'), ('mul', 'arith'), ('div', '
                  ('to_scalars', 'scalars'), ('matrix_from_scalars', 'scalars'), ('comp', 'arith')]
 
 
-def gen_leaf(rng, ty, leaves, shapes, keysets, denoms):
+def gen_leaf(rng, ty, leaves, shapes, keysets, denoms, share=0.0):
+    # the same operand object may be used several times in one expression (seeded change C06-A: a cached
+    # derivative-free twin going stale shows only when an operand is reused)
+    same = [i for i, l in enumerate(leaves) if l['ty'] == ty]
+    if same and rng.random() < share:
+        return {'leaf': rng.choice(same), 'ty': ty, 'rc': 'B', 'shared': True}
     shape = rng.choice(shapes)
     item = ITEM[ty]
     n = int(np.prod(shape + item))
@@ -327,9 +332,14 @@ def gen_leaf(rng, ty, leaves, shapes, keysets, denoms):
     return {'leaf': len(leaves) - 1, 'ty': ty, 'rc': 'B'}
 
 
-def gen_tree(rng, ty, depth, leaves, shapes, keysets, denoms, focus):
+# operations that are singular (not differentiable, or 0/0) when their operands coincide or are parallel: no operand
+# sharing below them, so that random trees stay inside the open domain where the property speaks
+SINGULAR_ON_EQUAL = {'sep', 'cross', 'ucross', 'perp', 'proj', 'twovec', 'pcross', 'unit', 'norm', 'pnorm', 'with_norm'}
+
+
+def gen_tree(rng, ty, depth, leaves, shapes, keysets, denoms, focus, share=0.35):
     if depth == 0 or (depth < 3 and rng.random() < 0.25):
-        return gen_leaf(rng, ty, leaves, shapes, keysets, denoms)
+        return gen_leaf(rng, ty, leaves, shapes, keysets, denoms, share=share)
     cands = [nm for nm, sp in OPS.items() if sp[1] == ty]
     if focus and rng.random() < 0.6:
         fc = [nm for nm in cands if OPS[nm][4] in focus]
@@ -338,7 +348,8 @@ def gen_tree(rng, ty, depth, leaves, shapes, keysets, denoms, focus):
     argt, rt, needs, rc, fam = OPS[nm]
     args = []
     for t, need in zip(argt, needs):
-        sub = gen_tree(rng, t, depth - 1, leaves, shapes, keysets, denoms, focus)
+        sub = gen_tree(rng, t, depth - 1, leaves, shapes, keysets, denoms, focus,
+                       share=0.0 if nm in SINGULAR_ON_EQUAL else share)
         args.append(safen(sub, t, need))
     node = {'op': nm, 'args': args, 'ty': rt, 'rc': rc}
     if nm in ('radd', 'rsub', 'rmul', 'rdiv'):
@@ -425,6 +436,21 @@ def gen_cases(rng, tier, focus=()):
                              'twovec': {'c': [0, 1]}, 'with_norm': {'c': 2.5}}.get(nm, {}))
                 cases.append({'tree': node, 'leaves': leaves, 'denoms': {'t': list(den), 'u': []}, 'root': None,
                               'depth': 1, 'core': True})
+    # reuse core: one Scalar operand used twice, u1(x) (*|+) u2(x), u2 an operation with a plain number, both orders
+    consts = {'radd': {'c': 2.5}, 'rsub': {'c': 2.5}, 'rmul': {'c': 2.5}, 'rdiv': {'c': 2.5}, 'mod': {'c': 1.25},
+              'powr': {'c': 1.5}}
+    un = sorted(nm for nm, sp in OPS.items() if sp[0] == 'S' and sp[1] == 'S')
+    for u1 in un:
+        for u2 in ('radd', 'rsub', 'rmul', 'rdiv', 'neg', 'mod', 'pow2'):
+            for order in (0, 1):
+                leaves = []
+                x = gen_leaf(rng, 'S', leaves, [(), (2,)], {'t': 1.0, 'u': 0.3}, {'t': (), 'u': ()})
+                n1 = dict({'op': u1, 'args': [safen(dict(x), 'S', OPS[u1][2][0])], 'ty': 'S', 'rc': OPS[u1][3]}, **consts.get(u1, {}))
+                n2 = dict({'op': u2, 'args': [safen(dict(x), 'S', OPS[u2][2][0])], 'ty': 'S', 'rc': OPS[u2][3]}, **consts.get(u2, {}))
+                pair = [n1, n2] if order == 0 else [n2, n1]
+                node = {'op': rng.choice(['mul', 'add']), 'args': pair, 'ty': 'S', 'rc': 'A'}
+                cases.append({'tree': node, 'leaves': leaves, 'denoms': {'t': [], 'u': []}, 'root': None,
+                              'depth': 2, 'core': True, 'reuse': True})
     return cases
 
 
